@@ -69,11 +69,25 @@ func Load(root string, overlay map[string][]byte) (*Prog, error) {
 	if err != nil {
 		return nil, err
 	}
-	var errs []string
-	for _, p := range pkgs {
-		for _, e := range p.Errors {
-			errs = append(errs, e.Error())
+	collect := func() []string {
+		var errs []string
+		for _, p := range pkgs {
+			for _, e := range p.Errors {
+				errs = append(errs, e.Error())
+			}
 		}
+		return errs
+	}
+	errs := collect()
+	if len(overlay) > 0 && len(errs) > 0 && strings.Contains(strings.Join(errs, ";"), "no metadata for") {
+		// The mutant adds an import its package did not have: only a real
+		// go/packages Overlay makes `go list` see the new dependency.
+		cfg.ParseFile = nil
+		cfg.Overlay = overlay
+		if pkgs, err = packages.Load(cfg, "./..."); err != nil {
+			return nil, err
+		}
+		errs = collect()
 	}
 	if len(errs) > 0 {
 		if len(errs) > 10 {
